@@ -282,7 +282,7 @@ Section Parser.
       let K' := set_default K None in
       let S' := remove_key (s_ "default") S in
       match ts with
-      | [JStr t] => typed_single t S' K'
+      | [JStr t] => typed_single t S K      (* the default is passed through  (fix 773e603) *)
       | _ =>
         do es <- (fix go (l : list json) : M (list elem) :=
                     match l with
@@ -342,9 +342,9 @@ Section Parser.
         let default := lit "default" in
         if is_obj element then ret (EComp MAll [element] default)
         else
-          (* element.default = default or element.default *)
+          (* if not isinstance(default, NotPassed): element.default = default   (fix 804a592) *)
           ret (match default with
-               | Some d => if py_truthy d then with_elem_default element (Some d) else element
+               | Some d => with_elem_default element (Some d)
                | None => element
                end)
     | _ => fail PCrash
